@@ -29,13 +29,12 @@ def _isolation(c, name, f1, f2, caller_arrays):
     for k, v in vars(f1).items():
         if isinstance(v, np.ndarray):
             w = getattr(f2, k, None)
-            if w is v:
+            is_callers = any(ca is not None and (v is ca or (v.base is not None and v.base is ca)) for ca in caller_arrays)
+            if w is v and not is_callers:
+                # internal mutable state shared by two instances (class-level or default-argument arrays);
+                # a kept reference to the caller's own array is not interference by itself (mutation is C19's)
                 ok = False
                 c.note(f"{name}: attribute {k} is shared by two instances")
-            for ca in caller_arrays:
-                if ca is not None and (v is ca or (v.base is not None and v.base is ca)):
-                    ok = False
-                    c.note(f"{name}: attribute {k} aliases a caller array")
     c.goal('isolated', ok)
 
 
@@ -114,15 +113,28 @@ def _schema_ok(cls, method='_compute_all'):
         if not (isinstance(tgt, ast.Subscript) and isinstance(tgt.slice, ast.Name) and tgt.slice.id == tv):
             return False, 'target is not X[t]'
         call = st.value
-        if not (isinstance(call, ast.Call) and isinstance(call.func, ast.Attribute) and call.func.attr.startswith(('update', 'attitude'))):
-            return False, 'value is not self.update*(...)'
-        a0 = call.args[0]
-        if not (isinstance(a0, ast.Subscript) and isinstance(a0.slice, ast.BinOp) and isinstance(a0.slice.op, ast.Sub)
-                and getattr(a0.slice.left, 'id', '') == tv and getattr(a0.slice.right, 'value', None) == 1):
-            return False, 'first argument is not X[t-1]'
-        for ar in call.args[1:]:
-            if not (isinstance(ar, ast.Subscript) and isinstance(ar.slice, ast.Name) and ar.slice.id == tv):
-                return False, 'a sample argument is not indexed by t'
+        if not (isinstance(call, ast.Call) and isinstance(call.func, ast.Attribute)
+                and call.func.attr.startswith(('update', 'attitude', 'estimate'))):
+            return False, 'value is not self.update*/estimate(...)'
+
+        def prev(a):      # X[t-1]
+            return (isinstance(a, ast.Subscript) and isinstance(a.slice, ast.BinOp) and isinstance(a.slice.op, ast.Sub)
+                    and getattr(a.slice.left, 'id', '') == tv and getattr(a.slice.right, 'value', None) == 1)
+
+        def cur(a):       # X[t]
+            return isinstance(a, ast.Subscript) and isinstance(a.slice, ast.Name) and a.slice.id == tv
+
+        def conf(a):      # self.attr : a configuration constant of the instance
+            return isinstance(a, ast.Attribute) and isinstance(a.value, ast.Name) and a.value.id == 'self'
+        for k, ar in enumerate(call.args):
+            if prev(ar) and k == 0:
+                continue
+            if cur(ar) or conf(ar):
+                continue
+            return False, f'argument {k} of the step call is neither X[t-1] (first), X[t] nor a configuration attribute'
+        for kwd in call.keywords:
+            if not (conf(kwd.value) or cur(kwd.value)):
+                return False, f'keyword {kwd.arg} of the step call is not a configuration attribute'
     return True, f'{len(loops)} loops'
 
 
